@@ -491,7 +491,7 @@ impl<'a> Eval<'a> {
         // `CMD; echo WORDS >> /abs/log` : marker / observation append, no stdout
         if let Some((head, tail)) = c.rsplit_once("; echo ") {
             if let Some((words, log)) = tail.rsplit_once(" >> ") {
-                let plain = |w: &str| !w.is_empty() && w.chars().all(|ch| ch.is_ascii_alphanumeric() || "._,:/-".contains(ch));
+                let plain = |w: &str| !w.is_empty() && w.chars().all(|ch| ch.is_ascii_alphanumeric() || "._,:/-'".contains(ch));
                 let words_ok = words.split(' ').all(|w| plain(w) || w == "$(cksum" || w == "<" || (w.ends_with(')') && plain(&w[..w.len() - 1])));
                 if log.starts_with('/') && log.chars().all(|ch| ch.is_ascii_alphanumeric() || "._/-".contains(ch)) && words_ok {
                     c = head;
@@ -554,6 +554,13 @@ impl<'a> Eval<'a> {
             let words: Vec<&str> = rest.split(is_blank).filter(|w| !w.is_empty()).collect();
             if words.iter().all(|w| w.chars().all(|ch| ch.is_ascii_alphanumeric() || "._,:-".contains(ch))) && !words.is_empty() && !words[0].starts_with('-') {
                 return Ok(format!("{}\n", words.join(" ")));
+            }
+        }
+        // `cat 'path with blanks'`
+        if let Some(q) = c.strip_prefix("cat '").and_then(|x| x.strip_suffix('\'')) {
+            if !q.is_empty() && q.chars().all(|ch| ch.is_ascii_alphanumeric() || "._/- ".contains(ch)) {
+                let p = norm_path(dir, q).ok_or(ErrKind::Command)?;
+                return self.read(&p).ok_or(ErrKind::Command);
             }
         }
         if let Some(rest) = c.strip_prefix("cat ") {
